@@ -176,7 +176,8 @@ def run(P, R, tier, cfg):
         for c in sites:
             if _kind(c, eff) != COMMIT:
                 continue
-            reach = fn.reach(c.target, avoid_blocks=begins)
+            # (switches on one value stay consistent: `if enough { commit } else { rollback }; return enough`)
+            reach = A.reach_corr(fn, c.target, avoid_blocks=begins, seed_from=c.bb)
             for e in sorted(set(_ret_assign_blocks(fn)) & reach):
                 if _ret_const(fn, e) == "false":
                     R.violate("a", "commit-then-false:%s" % fn.name, "a committed frame is followed by a negative verdict at %s" % fn.loc(_line_of_block(fn, e)), fn, c.line)
